@@ -321,6 +321,12 @@ def c02(ctx):
                 ctx.check('kind-by-type', False, t.site(), 'state %s is entered from %s' % (short(t.to), short(t.frm)))
         # the request type is fixed by the suffix alone
         for e in t.stores():
+            if e['loc'] == ('S', 'implicit_write_flag') and cval(e['val']) == 1:
+                # ... or by a fully typed implicit-write name - of a command that can be selected at all
+                idxv = t.pre.mem.get(('S', 'index'))
+                ok = t.raw.facts.eq(Lin.atom('CMDS[%s].disable' % (idxv,)), 0) is True and t.raw.facts.eq(Lin.atom('GRPS[%s].disable' % (idxv,)), 0) is True
+                ctx.check('suffix-table', ok, t.site(e),
+                          'the request is turned into a WRITE by the name of a command that is not known to be enabled (a disabled command decides the kind of another command\'s request)')
             if e['loc'] != ('S', 'cmd_type'):
                 continue
             v = cval(e['val'])
